@@ -260,23 +260,63 @@ def C02_converges_junk_full : Prop :=
     (runJ c ch js).store.height = ready c ch top (evsOf (opsOf js))
 
 /-- **… which fails** (kernel-checked; distinct commitments, so this is not the finding above): the genuine data
-of block 2 arrives first (cached at height 2, its commitment marked seen), a junk item for height 2 **replaces it
-in the cache** (one slot per height), header 2 arrives and the junk is dropped; from then on every delivery of the
-genuine data 2 is dropped as "already seen" and the node stays at height 1 although everything up to 3 was
-delivered — twice.  Recorded finding `C02/stall/junk-p2p-data-replaced-cached-data`; a repair needs a cache that
-keeps several candidates per height or authenticated P2P data. -/
+of block 2 arrives first (cached at height 2), a junk item for height 2 **replaces it in the cache** (one slot per
+height), header 2 arrives and the junk is dropped; header 3 and data 3 arrive: the node stays at height 1 although both
+parts of every block up to 3 were delivered.  Recorded finding `C02/stall/junk-p2p-data-replaced-cached-data`; since
+/repo c3c43a6 the stall is **not permanent** any more (the genuine data is not marked as seen while it is merely
+cached): one more delivery of the genuine data 2 and the node holds the whole chain (`C02_junk_stall_recovers`,
+`C02_junk_never_blocks_genuine_data`).  A full repair needs a cache that keeps several candidates per height or
+authenticated P2P data. -/
 theorem C02_converges_junk_fails : ¬ C02_converges_junk_full := by
   intro h
   have hj : JunkOK wch3 wJunkStall := by
     intro d hd
     have : d = wJunk2 := by
-      simp only [wJunkStall, wAll, List.map_cons, List.map_nil, List.cons_append, List.nil_append, List.mem_cons,
-        JOp.junk.injEq, reduceCtorEq, false_or, List.not_mem_nil, or_false] at hd
+      simp only [wJunkStall, List.mem_cons, JOp.junk.injEq, reduceCtorEq, false_or, List.not_mem_nil, or_false] at hd
       exact hd
     rw [this]; exact witness_junk
   have := h wC wch3 3 wJunkStall witness3_good witness3_distinct hj
-  rw [wf_junkStall.1, wf_junkStall.2.2] at this
+  rw [wf_junkStall.1, wf_junkStall.2.2.1] at this
   exact absurd this (by decide)
+
+/-- … and the same run recovers as soon as the genuine data 2 is delivered once more -/
+theorem C02_junk_stall_recovers :
+    (runJ wC wch3 (wJunkStall ++ [.op (.ev (.dat 2))])).store.height = 3 := wf_junkStall.2.2.2.1
+
+/-- **Junk never makes genuine data unacceptable** (after /repo c3c43a6; needs `DistinctCommitments`, the hypothesis of
+the other recorded finding).  After ANY run with junk data items anywhere — including items that copy the genuine
+transactions of a block, i.e. carry the genuine data commitment, under wrong metadata — the data seen-set names
+commitments of **applied** blocks only, and for every non-empty block `k` above the chain height the genuine data
+event is accepted: afterwards block `k` is applied or its genuine data is what the cache returns for height `k`
+(in front of whatever junk was there), and it stays there until the block is applied; if `k` is the next height and
+its header is cached, the block is applied by that very event.  (Before c3c43a6 one copy of the transactions of block
+`k` under a wrong time made the genuine data of `k` "already seen" for ever — for the sync loop and for the DA
+retriever, which consults the same set: `C02_junk_same_commitment_witness`.) -/
+theorem C02_junk_never_blocks_genuine_data (g : GoodChain c ch top) (dc : DistinctCommitments ch) (js : List JOp)
+    (hj : JunkOK ch js) :
+    let n := runJ c ch js
+    (∀ x, x ∈ n.seenD → ∃ k b, ch k = some b ∧ ¬ IsEmpty b ∧ x = b.data.daCommitment ∧ k ≤ n.store.height) ∧
+    ∀ k b, ch k = some b → ¬ IsEmpty b → n.store.height < k →
+      (k ≤ (deliver ch n (.dat k)).1.store.height ∨ getD (deliver ch n (.dat k)).1 k = some b.data) ∧
+      (k = n.store.height + 1 → k ∈ keysH n → k ≤ (deliver ch n (.dat k)).1.store.height) := by
+  intro n
+  have hs := runJ_safe g js hj
+  have hsa := runJ_seen g js hj
+  exact ⟨hsa, fun k b hb hne hk => junk_never_blocks g dc hs hsa hb hne hk⟩
+
+/-- `wJunkSame2` — the genuine transactions of block 2 (the genuine commitment) under a wrong time — is a junk item -/
+theorem witness_junk_same : JunkData wch3 wJunkSame2 := junkData_of_check wf_junkStall.2.2.2.2.1
+
+/-- **The witness of the defect repaired by /repo c3c43a6** (kernel-checked): a junk item with the *genuine data
+commitment* of block 2, delivered before header 2 (`wSameA`) or after it (`wSameB`), then the genuine data 2 and
+block 3: the node holds the whole chain.  Before the repair the copy marked the commitment as seen and the node stayed
+at height 1 for ever (replayed on the real loop by stream C02: `junkdat h=2 same=1`, signature
+`C02/stall/junk-p2p-data-marked-genuine-commitment-seen`). -/
+theorem C02_junk_same_commitment_witness :
+    (wch3 2).map (·.data.daCommitment) = some wJunkSame2.daCommitment ∧
+    (runJ wC wch3 wSameA).store.height = 3 ∧ holdsChain3 (runJ wC wch3 wSameA).store = true ∧
+    (runJ wC wch3 wSameB).store.height = 3 ∧ holdsChain3 (runJ wC wch3 wSameB).store = true :=
+  wf_junkStall.2.2.2.2.2
 
 /-! ## non-vacuity -/
 
